@@ -5,6 +5,7 @@
 #include <trompeloeil.hpp>
 #include "model.hpp"
 #include <chrono>
+#include <csignal>
 #include <cstdio>
 #include <cstdlib>
 #include <fstream>
@@ -371,8 +372,9 @@ static std::set<std::string> allowed_results(const Program& p, long& nodes) {
 // -------------------------------------------------------------------------------------------------
 struct ProgStats { long schedules = 0, points = 0, nodes = 0, lin_nodes = 0, races = 0, nonlin = 0, deadlocks = 0, nondet = 0; int max_preempt = 0; std::set<std::string> outcomes; std::vector<int> bad_choices; std::string bad_what, bad_result; size_t allowed = 0; bool capped = false; };
 
+static volatile sig_atomic_t g_time_up = 0;
 static void explore(const Program& p, const std::set<std::string>& allowed, std::vector<int> prefix, int bound, ProgStats& st, long max_sched) {
-  if (st.schedules >= max_sched) { st.capped = true; return; }
+  if (st.schedules >= max_sched || g_time_up) { st.capped = true; return; }
   long before = g_tsan_reports;
   ExecResult r = execute(p, prefix);
   ++st.schedules; st.points += r.npoints; st.nodes += r.npoints - (long)prefix.size() + 1; st.max_preempt = std::max(st.max_preempt, r.preemptions);
@@ -410,6 +412,8 @@ static bool valid_program(const Program& p) {
   if (cnt[20] && cnt[8]) return false;                                // Q1 is queried directly: it must not be released concurrently
   if (cnt[19] && cnt[13]) return false;                               // D is queried directly: it must not be released concurrently
   if (cnt[18] && cnt[12]) return false;                               // a requirement is not placed on an object that another operation of the program destroys
+  int total = 0; for (int t = 0; t < p.nt; ++t) total += p.nops[t];
+  if (cnt[22] && total > 2) return false;                             // the own-mock operation has ~8 critical sections: it is explored in 2x1 programs only (combinatorics, not a caller obligation)
   return true;
 }
 static std::vector<Program> programs_of(const std::string& shape, const std::vector<int>& ops, long* filtered) {
@@ -491,7 +495,11 @@ int main(int argc, char** argv) {
     pid_t c = fork();
     if (c == 0) {
       close(pf[0]);
-      alarm(per_program_limit);  // a program whose exploration exceeds the limit is reported as abnormal termination (SIGALRM)
+      // time limit per program: when it is reached the exploration stops taking new schedules and the program is recorded as
+      // capped (not exhaustive, no alarm); only if even the schedule in progress does not finish within another 30 s - a hang -
+      // does the second SIGALRM end the process, which the parent reports as abnormal termination
+      signal(SIGALRM, [](int) { if (g_time_up) _exit(114); g_time_up = 1; alarm(30); });
+      alarm(per_program_limit);
       ProgStats st; std::set<std::string> allowed = allowed_results(p, st.lin_nodes); st.allowed = allowed.size();
       explore(p, allowed, {}, bound, st, max_sched);
       std::string ch; for (int x : st.bad_choices) { ch += std::to_string(x); ch += ','; }
